@@ -34,6 +34,7 @@
 package http2_test
 
 import (
+	"io"
 	"net/http"
 	"testing"
 	"testing/synctest"
@@ -86,6 +87,7 @@ func TestFindingC10ClientUnaccountedData(t *testing.T) {
 			tc := newTestClientConn(t)
 			tc.greet()
 			body := tc.newRequestBody() // stays open: the stream stays registered
+			defer body.closeWithError(io.EOF)
 			req, _ := http.NewRequest("POST", "https://dummy.tld/", body)
 			tc.roundTrip(req)
 			tc.wantFrameType(FrameHeaders)
